@@ -73,6 +73,8 @@ def tree_view(tree, git, strict):
     """
     out = {}
     root_id = None
+    rec = {}
+    tree_view.recorded_exec = rec
 
     def call(api, path, *a):
         try:
@@ -112,6 +114,9 @@ def tree_view(tree, git, strict):
             if kind == "file":
                 d["content"] = call("get_file_text", path)
                 d["exec"] = bool(call("is_executable", path))
+                if not strict:
+                    # what the tree *records* (inventory / index), kept out of the view comparison (a preview has no record)
+                    rec[path] = bool(getattr(ie, "executable", False))
             elif kind == "symlink":
                 d["target"] = call("get_symlink_target", path)
             if not git:
@@ -407,9 +412,14 @@ def nameless(script):
 
 
 def is_nofinal(e):
+    """NoFinalPath, or its twin for the parent: final_parent() of a trans id that has neither a new nor a tree parent is a KeyError."""
     while e is not None:
         if type(e).__name__ == "NoFinalPath":
             return True
+        if isinstance(e, KeyError) and e.__traceback__ is not None:
+            names = [fs.name for fs in traceback.extract_tb(e.__traceback__)]
+            if names[-2:] == ["final_parent", "get_tree_parent"] and "resolve_parent_loop" not in names:
+                return True
         e = e.__cause__ or (e.exc if isinstance(e, PreviewApiError) else None)
     return False
 
@@ -509,7 +519,7 @@ def case(ctx):
             except (KeyboardInterrupt, SystemExit):
                 raise
             except Exception as e:
-                if isinstance(e, T.NoFinalPath) and nameless(script):
+                if is_nofinal(e) and nameless(script):
                     # documented programming error ("trying to create a file with no path"): refusal, tree must stay untouched
                     outcome = "no-final-path"
                     ctx.hist("refused-nameless:%s:resolve" % label)
@@ -729,6 +739,17 @@ def judge_applied(ctx, p, wt, git, label, before, orig, snap):
             report_view_diff(ctx, "preview-vs-applied:%s" % label, "[tt] preview tree before apply != working tree after apply", snap, after_view, before["view"])
         elif snap["root"] != after_root:
             ctx.fail("preview-vs-applied:%s:root-id" % label, "preview root id %r, applied root id %r" % (snap["root"], after_root), None)
+    # executability scheduled by the transform must also be what the tree records for the file afterwards
+    rec = dict(tree_view.recorded_exec)
+    nset = 0
+    for q, f in (snap.get("feats") or {}).items():
+        if f.get("new_exec") and q in after_view and "exec" in after_view[q] and q in rec:
+            nset += 1
+            if rec[q] != after_view[q]["exec"]:
+                ctx.fail("applied:%s:recorded-exec-differs-from-set-executability" % label,
+                         "%r: set_executability applied on disk (%r) but the tree records %r" % (q, after_view[q]["exec"], rec[q]), None)
+    if nset:
+        ctx.count("cmp_recorded_exec", nset)
     roots = (before["root"], after_root)
     # entries already reported under their own mechanism key are not reported a second time through iter_changes
     skip = set()
